@@ -72,7 +72,8 @@ def confirm(name, suite):
     wt = os.path.join(base, "wt")
     shutil.rmtree(base, ignore_errors=True)
     os.makedirs(base)
-    subprocess.run(["git", "-C", REPO, "worktree", "add", "-q", "--detach", wt, "HEAD"], check=True)
+    subprocess.run(["git", "-C", REPO, "worktree", "prune"])
+    subprocess.run(["git", "-C", REPO, "worktree", "add", "-q", "-f", "--detach", wt, "HEAD"], check=True)
     try:
         path, cmd = demo_cmd(sdir)
         res["demo_path"], res["demo_cmd"] = path, cmd
@@ -107,7 +108,7 @@ def confirm(name, suite):
         os.remove(os.path.join(wt, path))
         if suite:
             js = os.path.join(base, "suite.json")
-            sh(["bash", "-c", "go test -json -vet=off -count=1 -timeout 25m ./... > %s 2>&1" % js], wt)
+            sh(["bash", "-c", "go test -json -vet=off -count=1 -timeout 8m ./... > %s 2>&1" % js], wt)
             rc, out = sh(["python3", os.path.join(VERIF, "lib", "baseline_cmp.py"), js], wt)
             if rc != 0:
                 # TestPathological is timing based: re-run what did not pass once, alone
